@@ -254,6 +254,40 @@ def coupled_state(F):
             r.violate("%s | partial rebuild" % fn["path"], F.loc(fn),
                       "%s changes curr_mod but rebuilds the module sub-iterator from %s only (needs both metadata and skip_funcs of the new module): the previous module's %s stays in effect" % (
                           fn["name"], sorted(reads), sorted({"metadata", "skip_funcs"} - reads)))
+    # … and on every path: after the last change of curr_mod the module sub-iterator is re-installed (assigned, or
+    # `reset_from_comp_iterator`), unless the path reports exhaustion (`false`).  A "rewinding is enough" shortcut
+    # (`mod_iterator.reset()` only) keeps the function table and skip list of the module the traversal stopped in.
+    for fn in F.find_fns(self_adt="ComponentSubIterator"):
+        if fn.get("body") is None or fn["name"] == "new":
+            continue
+
+        def classify_c(x):
+            k = x.get("k")
+            if k in ("Assign", "AssignOp") and (place_path(x["lhs"]) or "").replace("*", "").endswith("curr_mod"):
+                return "MOVE"
+            if k == "Assign" and (place_path(x["lhs"]) or "").endswith("mod_iterator"):
+                return "INSTALL"
+            if k == "MethodCall" and x["method"] == "reset_from_comp_iterator" and (place_path(x["recv"]) or "").endswith("mod_iterator"):
+                return "INSTALL"
+            if k == "Lit" and x.get("lit") == "Bool(false)":
+                return "FALSE"
+            return None
+        try:
+            ps = normal_paths(paths(fn["body"], classify_c))
+        except Exception:
+            continue
+        if not any("MOVE" in ev for ev, _ in ps):
+            continue
+        for ev, _st in ps:
+            if "MOVE" not in ev or (ev and ev[-1] == "FALSE"):
+                continue
+            last_move = max(i for i, e in enumerate(ev) if e == "MOVE")
+            ok = "INSTALL" in ev[last_move + 1:]
+            r.ob(ok, {"fn": fn["path"], "path": list(ev)})
+            if not ok:
+                r.violate("%s | module cursor moved without re-install" % fn["path"], F.loc(fn),
+                          "a path through %s changes curr_mod (events %s) and does not re-install the module sub-iterator from the new module's function table and skip list afterwards: the walk continues with the tables of the module it was in before" % (fn["name"], list(ev)))
+                break
     # the two cursors index different things (curr_idx: a function in `metadata`; func_iterator.curr_instr: an instruction
     # of that function): neither is handed to the other level's API
     for fn in F.find_fns(self_adt="ModuleSubIterator"):
